@@ -353,7 +353,7 @@ fn main() {
             }
             shuffle(&mut rng, &mut p);
             emit(chk, &p, "cycle");
-        } else if class < 95 {
+        } else if class < 93 {
             // legal pointer cycles on top of a well-formed program
             let mut p = base.clone();
             let names: Vec<u64> = p.iter().map(|s| s.0).collect();
@@ -369,7 +369,18 @@ fn main() {
         } else {
             // sizes around 2^32: huge arrays and doubling chains
             let mut p: Prog = Vec::new();
-            if rng.chance(1, 2) {
+            if rng.chance(1, 3) {
+                // a byte array that ends d bytes below 2^32, then a few fields: align_to / offset += size / tail padding at the edge
+                let d = rng.below(18);
+                let mut fs = Vec::new();
+                if rng.chance(1, 4) { fs.push(T::P(*rng.pick(&["U8", "U16", "U32"]))); }
+                let el = *rng.pick(&["U8", "U8", "U16", "U32", "I64"]);
+                let esz: u64 = match el { "U8" => 1, "U16" => 2, "U32" => 4, _ => 8 };
+                fs.push(T::Arr(Box::new(T::P(el)), ((1u64 << 32) - d) / esz));
+                for _ in 0..rng.below(4) { fs.push(T::P(*rng.pick(&SCALARS))); }
+                p.push((1, fs));
+                if rng.chance(1, 3) { p.push((2, vec![T::Struct(1), T::P(*rng.pick(&SCALARS))])); }
+            } else if rng.chance(1, 2) {
                 let n = *rng.pick(&[(1u64 << 29) - 1, 1 << 29, (1 << 29) + 1, 1 << 30, 1 << 32, (1 << 32) + 3, 1 << 33, 4294967295 / 8]);
                 let el = *rng.pick(&["I64", "U8", "I32", "Void"]);
                 let mut fs = vec![T::Arr(Box::new(T::P(el)), n)];
